@@ -169,7 +169,28 @@ func (w *rawRenderer) spNot() string {
 }
 
 // RawUnit renders tree as a raw string with '?' (or @named) arguments.
+// emptySomeIN empties the list of some IN atoms (an empty, non-nil slice: the filter list that turned out empty).
+// Only raw-string units get them: there gorm writes (NULL) for the list, whatever stands around it; clause.IN and the
+// map form have a reading of their own for the negated empty list (IS NOT NULL), which the statement does not fix.
+func emptySomeIN(r *core.Rand, n *Node) {
+	if n.Kind == Atom {
+		if n.Cmp == "IN" && r.Chance(1, 4) {
+			switch n.Val.(type) {
+			case []int64:
+				n.Val = []int64{}
+			case []string:
+				n.Val = []string{}
+			}
+		}
+		return
+	}
+	for _, k := range n.Kids {
+		emptySomeIN(r, k)
+	}
+}
+
 func RawUnit(r *core.Rand, tree *Node, st Style, named bool) *Unit {
+	emptySomeIN(r, tree)
 	w := &rawRenderer{r: r, st: st, named: named, names: map[string]interface{}{}, canon: true}
 	s := w.render(tree, True, true)
 	u := &Unit{Form: "raw", Pos: tree, Neg: NotOf(tree), Canon: w.canon}
